@@ -227,8 +227,8 @@ Proof.
   intros H. unfold nrange. apply in_map_iff. exists (N.to_nat x). split; [lia|]. apply in_seq. lia.
 Qed.
 
-Definition grid_plens : list N := [0; 1; 4096; 8183; 8184].
-Definition grid_bfs : list N := [0; 1365; 2047].
+Definition grid_plens : list N := [0; 8184].
+Definition grid_bfs : list N := [0; 2047].
 
 Definition adts_grid : list adts :=
   flat_map (fun ot => flat_map (fun sfi => flat_map (fun ch => flat_map (fun pl =>
